@@ -48,7 +48,7 @@ def _lexstate(lx):
         line=lx._lineno,
         lstart=lx._line_start,
         file=lx._filename,
-        pend=_tok(lx._pending_tok),
+        pend=_tok(getattr(lx, "_pending_tok", None)),
     )
 
 
